@@ -183,6 +183,14 @@ def opPrintPath (toks : List String) : String :=
     | _, _ => "bad-args"
   | _ => "bad-args"
 
+/-- `inoculate <ont graph>` → the triples added to the data graph -/
+def opInoculate (toks : List String) : String :=
+  match parseGraph toks with
+  | some (ont, _) =>
+    let ts := dedup (inoculated ont)
+    "ok " ++ toString ts.length ++ String.join (ts.map fun t => " " ++ termStr t.s ++ " " ++ termStr t.p ++ " " ++ termStr t.o)
+  | none => "bad-graph"
+
 def step (line : String) : String :=
   match (line.trimAscii.toString.splitOn " ").filter (· ≠ "") with
   | id :: op :: rest =>
@@ -192,6 +200,7 @@ def step (line : String) : String :=
       | "pipeline" => opPipeline rest
       | "history" => opHistory rest
       | "printpath" => opPrintPath rest
+      | "inoculate" => opInoculate rest
       | _ => "bad-op"
     id ++ " " ++ out
   | _ => "? bad-line"
